@@ -164,24 +164,28 @@ Proof.
   - destruct (List.concat (r_scopes r)); [discriminate|reflexivity].
 Qed.
 
-Lemma otlp_stream_some q b : forall rows, otlp_decode q b = Some rows -> otlp_stream q b = (rows, false).
+Lemma otlp_stream_core_some q b : forall rows, otlp_decode_core q b = Some rows -> otlp_stream_core q b = (rows, false).
 Proof.
-  unfold otlp_decode. induction b as [|r rest IH]; intros rows H; cbn [mapM option_map otlp_stream] in *.
+  unfold otlp_decode_core. induction b as [|r rest IH]; intros rows H; cbn [mapM option_map otlp_stream_core] in *.
   - inversion H. reflexivity.
   - destruct (otlp_res q r) as [x|] eqn:Er; [|discriminate].
     destruct (mapM (otlp_res q) rest) as [xs|]; [|discriminate]. cbn [option_map] in *. inversion H; subst.
     rewrite (otlp_res_stream_some _ _ _ Er), (IH _ eq_refl). reflexivity.
 Qed.
 
-Lemma otlp_stream_none q b : otlp_decode q b = None -> snd (otlp_stream q b) = true.
+Lemma otlp_stream_core_none q b : otlp_decode_core q b = None -> snd (otlp_stream_core q b) = true.
 Proof.
-  unfold otlp_decode. induction b as [|r rest IH]; intros H; cbn [mapM option_map otlp_stream] in *; [discriminate|].
+  unfold otlp_decode_core. induction b as [|r rest IH]; intros H; cbn [mapM option_map otlp_stream_core] in *; [discriminate|].
   destruct (otlp_res q r) as [x|] eqn:Er.
   - rewrite (otlp_res_stream_some _ _ _ Er).
     destruct (mapM (otlp_res q) rest) as [xs|]; [discriminate|].
-    destruct (otlp_stream q rest) as [rows' e']. cbn [snd] in *. apply IH. reflexivity.
+    destruct (otlp_stream_core q rest) as [rows' e']. cbn [snd] in *. apply IH. reflexivity.
   - pose proof (otlp_res_stream_none _ _ Er) as Hn. destruct (otlp_res_stream q r) as [rows e]. cbn [snd] in Hn. subst. reflexivity.
 Qed.
+Lemma otlp_stream_some q b rows : otlp_decode q b = Some rows -> otlp_stream q b = (rows, false).
+Proof. unfold otlp_decode, otlp_stream. destruct (otlp_utf8_ok b); [apply otlp_stream_core_some|discriminate]. Qed.
+Lemma otlp_stream_none q b : otlp_decode q b = None -> snd (otlp_stream q b) = true.
+Proof. unfold otlp_decode, otlp_stream. destruct (otlp_utf8_ok b); [apply otlp_stream_core_none|reflexivity]. Qed.
 
 Lemma zipkin_stream_some q nd : forall es i st rows,
   zipkin_from q nd i st es = Some rows -> zipkin_stream_from q nd i st es = (rows, false).
